@@ -441,6 +441,39 @@ theorem elem_choice_sum_counterexample :
 example : okTrue (elemRestr C11 (isRestr C11 5) (el 0 qa 2 (some 2))
     (grp 9 .choice 1 (some 1) [el 1 qa 2 (some 2), .leaf (.any 2 wAny) 3 (some 3)]) true) = true := by decide
 
+/-! ### XSD 1.0 sequence rule: the left-over base particles -/
+
+/-- XSD 1.0 order-preserving rule (groups.py:743-772): against a base that is not a choice, the rule answers
+    yes only if the base particles LEFT OVER after the last derived item was placed are all emptiable —
+    whatever the model of the DERIVED group is (the test is on `other.model`, not on `self.model`). -/
+theorem sequence_rule_checks_leftover (C : Ctx) (rec : Rec) (self other : Particle)
+    (hk : other.kind ≠ .choice) (h : sequenceRestriction10 C rec self other = .ok true) :
+    ∃ rest, seqLoop10 C rec false ((iterModel self).all fun e => e.hi == some 0) (other.hi != some 0)
+        (iterModel self) (iterModel other) = .ok (some rest) ∧ rest.all emptiable = true := by
+  have hk' : (other.kind == GKind.choice) = false := by simpa using hk
+  simp only [sequenceRestriction10, hk', bind, Except.bind, pure, Except.pure] at h
+  split at h
+  · cases h
+  · split at h
+    · cases h
+    · rename_i r hr
+      cases r with
+      | none => simp at h
+      | some rest =>
+        refine ⟨rest, hr, ?_⟩
+        simpa using h
+
+/-- a single-branch choice over a base sequence: `choice(a)` is refused as a restriction of
+    `sequence(a, b{1,2})` (the required `b` is left over); the child sequence `a` is valid for it only -/
+theorem single_branch_choice_over_sequence_refused :
+    let d := grp 0 .choice 1 (some 1) [el 1 qa 1 (some 1)]
+    let b := grp 2 .seq 1 (some 1) [el 3 qa 1 (some 1), el 4 qb 1 (some 2)]
+    okTrue (typeRestrictionAccepted C10 d b) = false ∧ inModel d [qa] = true ∧ inModel b [qa] = false := by
+  decide
+
+example : okTrue (typeRestrictionAccepted C10 (grp 0 .choice 1 (some 1) [el 1 qa 1 (some 1)])
+    (grp 2 .seq 1 (some 1) [el 3 qa 1 (some 1), el 4 qb 0 (some 2)])) = true := by decide
+
 /-! ### the three repaired clauses of C14-F0 (`Ctx.repaired`) -/
 
 /-- With the repaired zero-occurrence clause (`C.repaired`, notes/fixes/C14-zero-occurs-and-empty-group.patch)
